@@ -79,7 +79,7 @@ type StSpec struct {
 type Op struct {
 	Kind  string         `json:"op"`
 	Slot  int            `json:"slot,omitempty"`  // AddSig: signature slot
-	Sig   string         `json:"sig,omitempty"`   // AddSig: "valid" | "other" | "stale" | "random"
+	Sig   string         `json:"sig,omitempty"`   // AddSig: "valid" | "other" | "stale" | "random" | "short"
 	Actor int            `json:"actor,omitempty"` // Update/Force/SetProgressed
 	St    *StSpec        `json:"st,omitempty"`
 	Alloc *gen.AllocSpec `json:"alloc,omitempty"` // Init
@@ -222,6 +222,11 @@ func (l *Live) makeSig(slot int, kind string) wallet.Sig {
 		sig, err = channel.Sign(gen.Acc(slot), other, 0)
 	case "random":
 		return random
+	case "short": // a valid signature cut to 63 bytes: the backend cannot parse it (Verify returns an error)
+		sig, err = channel.Sign(gen.Acc(slot), st, 0)
+		if err == nil {
+			sig = append(wallet.Sig(nil), sig[:len(sig)-1]...)
+		}
 	default:
 		sig, err = channel.Sign(gen.Acc(slot), st, 0)
 	}
